@@ -48,6 +48,37 @@ def h_resubscribe(a, inst):
     return same_events(e1, e2)
 
 
+# ------------------------------------------------------------------ the second subscription sees *different* data
+@harness(instances=_inst, timeout=(90, 900), d=I(0, 5), bt=I(1, 2), **pipe.params(gmax=1))
+def h_varying(a, inst):
+    """the same observable object over a deferred source that yields timeline A (symbolic) to the first subscription and a shorter
+    timeline B to the second; the first subscription runs to its end (completion or error) or is disposed after d ticks.  The
+    second subscription must behave exactly like a freshly built pipeline over B: nothing of the first run may leak into it"""
+    from harness.catalog import element
+    sch = make_scheduler()
+    ctx, main_a, srcs = pipe.build(a, inst, sch, hot=False)
+    kind = E[inst["op"]].get("elem")
+    b_msgs = [on_next(2, element(kind, 1)), on_completed(3) if a.bt == 1 else on_error(3, Injected("b"))]
+    main_b, main_b2 = sch.create_cold_observable(b_msgs), sch.create_cold_observable(b_msgs)
+    def factory(scheduler):
+        return main_a if sch.clock < 215 else main_b  # whoever subscribes the source before 215 gets A, later B
+
+    shared = reactivex.defer(factory).pipe(E[inst["op"]]["build"](ctx))
+    fresh = main_b2.pipe(E[inst["op"]]["build"](ctx))
+    o1, o2, o3 = sch.create_observer(), sch.create_observer(), sch.create_observer()
+    h = [None]
+    sch.schedule_absolute(200, lambda s, st: h.__setitem__(0, shared.subscribe(o1, scheduler=s)))
+    if a.d < 5:
+        sch.schedule_absolute(201 + a.d, lambda s, st: h[0].dispose())
+    sch.schedule_absolute(220, lambda s, st: shared.subscribe(o2, scheduler=s))
+    sch.schedule_absolute(220, lambda s, st: fresh.subscribe(o3, scheduler=s))
+    sch.advance_to(250)
+    if inst["op"] in ("timestamp",):
+        return len(o2.messages) == len(o3.messages)
+    cover("both")
+    return same_events(rec_tuples(o2.messages), rec_tuples(o3.messages))
+
+
 # ------------------------------------------------------------------ creation functions that combine / build sources
 def _cinst(tier):
     return [{"fn": f} for f in CREATORS]
@@ -92,7 +123,7 @@ CREATORS = {
     "repeat_value": lambda x, y, a: reactivex.repeat_value(7, 2),
     "return_value": lambda x, y, a: reactivex.return_value(7),
     "timer": lambda x, y, a: reactivex.timer(2),
-    "for_in": lambda x, y, a: reactivex.concat_with_iterable(m for m in [x, y]) if False else reactivex.concat_with_iterable([x, y]),
+    "for_in": lambda x, y, a: reactivex.for_in([0, 1], lambda i: (x, y)[i]),
 }
 KNOWN_REGION = {}
 
